@@ -85,11 +85,11 @@ class TwoLayerGas(Gas):
 
     @mixRatioPressure.setter
     def mixRatioPressure(self, value):
-        self._mix_pressure = value
+        self._mix_ratio_pressure = value
 
     @mixRatioSmoothing.setter
     def mixRatioSmoothing(self, value):
-        self._mix_smoothing = value
+        self._mix_ratio_smoothing = value
 
     def add_surface_param(self):
         """
